@@ -529,6 +529,26 @@ pub struct Knobs {
     /// enabled drawable kinds (indices into KIND_MENU)
     pub kinds: Vec<u8>,
     pub color_mask: u32,
+    /// positions are drawn around this point (the region of the target the drawable should meet)
+    pub origin: [i32; 2],
+}
+
+impl Knobs {
+    /// Aim the drawable at a box (top layer's coordinates): positions are drawn around its
+    /// top-left corner and the scale is reduced for small boxes, so that most drawings meet it.
+    pub fn aim_at(&mut self, b: &crate::model::R) {
+        if b.is_empty() {
+            return;
+        }
+        if b.w() <= 48 && b.h() <= 48 {
+            self.origin = [b.x0 as i32, b.y0 as i32];
+            let m = b.w().max(b.h()) as i32;
+            self.scale = self.scale.min(m.max(4));
+        } else if b.x0 > 0 || b.y0 > 0 || b.x1 < 0 || b.y1 < 0 {
+            // a large box that does not contain the origin
+            self.origin = [(b.x0 + b.w() / 3) as i32, (b.y0 + b.h() / 3) as i32];
+        }
+    }
 }
 
 /// 0 rect 1 circle 2 ellipse 3 rrect 4 triangle 5 line 6 arc 7 sector 8 polyline 9 image 10 sub-image 11 text 12 pixel 13 pixel-iter
@@ -560,6 +580,7 @@ pub fn gen_knobs(src: &mut Src, color_mask: u32, c04: bool) -> Knobs {
         allow_renderer_entries: c04,
         kinds,
         color_mask,
+        origin: [0, 0],
     }
 }
 
@@ -572,7 +593,7 @@ pub fn coord(src: &mut Src, k: &Knobs) -> i32 {
 }
 
 pub fn pos(src: &mut Src, k: &Knobs) -> [i32; 2] {
-    [coord(src, k), coord(src, k)]
+    [k.origin[0] + coord(src, k), k.origin[1] + coord(src, k)]
 }
 
 pub fn size1(src: &mut Src, k: &Knobs) -> u32 {
@@ -594,10 +615,14 @@ pub fn colour(src: &mut Src, k: &Knobs) -> u32 {
 }
 
 fn gen_style(src: &mut Src, k: &Knobs, extent: u32, open_shape: bool) -> StyleSpec {
-    let fill = if src.draw(3) != 0 { Some(colour(src, k)) } else { None };
-    let stroke = if src.draw(4) != 0 { Some(colour(src, k)) } else { None };
-    let width = match src.draw(8) {
+    let fill = if src.draw(4) != 0 { Some(colour(src, k)) } else { None };
+    let stroke = if src.draw(if open_shape { 10 } else { 4 }) != 0 { Some(colour(src, k)) } else { None };
+    let width = match src.draw(if open_shape { 16 } else { 8 }) {
         0 => 0,
+        8..=11 => 1,
+        12 | 13 => 2,
+        14 => 3,
+        15 => 4 + src.draw(4),
         1 | 2 => 1,
         3 => 2,
         4 => 3,
@@ -707,9 +732,9 @@ fn gen_text(src: &mut Src, k: &Knobs) -> TextSpec {
 /// Areas for sub-images relative to a w x h parent: inside / straddling / outside / zero-sized.
 pub fn gen_sub_area(src: &mut Src, w: u32, h: u32) -> [i32; 4] {
     let (w, h) = (w as i32, h as i32);
-    match src.draw(8) {
+    match src.draw(12) {
         0 => [0, 0, w, h],
-        1 | 2 | 3 => {
+        1 | 2 | 3 | 8 | 9 | 10 | 11 => {
             // inside
             let x = if w > 0 { src.draw(w as u32) as i32 } else { 0 };
             let y = if h > 0 { src.draw(h as u32) as i32 } else { 0 };
@@ -737,15 +762,17 @@ pub fn gen_sub_area(src: &mut Src, w: u32, h: u32) -> [i32; 4] {
 
 pub fn gen_image(src: &mut Src, k: &Knobs, bits: u32, with_subs: bool) -> ImageSpec {
     let ppb = if bits < 8 { 8 / bits } else { 1 };
-    let w = match src.draw(5) {
-        0 => src.draw(3),
-        1 => ppb + src.draw(3) - 1,
-        2 => 2 * ppb + 1,
-        _ => src.draw(21),
+    let w = match src.draw(16) {
+        0 => 0,
+        1 | 2 => 1 + src.draw(2),
+        3 | 4 | 5 => ppb + src.draw(3) - 1,
+        6 | 7 => 2 * ppb + 1,
+        _ => 1 + src.draw(20),
     };
-    let h = match src.draw(4) {
-        0 => src.draw(2),
-        _ => src.draw(13),
+    let h = match src.draw(16) {
+        0 => 0,
+        1 => 1,
+        _ => 1 + src.draw(12),
     };
     let be = src.bool();
     let n = bytes_per_row(w, bits) * h as usize;
@@ -762,9 +789,12 @@ pub fn gen_image(src: &mut Src, k: &Knobs, bits: u32, with_subs: bool) -> ImageS
     let mut subs = Vec::new();
     if with_subs {
         let a = gen_sub_area(src, w, h);
-        let (aw, ah) = (a[2].max(0) as u32, a[3].max(0) as u32);
         subs.push(a);
-        if src.draw(3) == 0 {
+        if src.draw(3) == 2 {
+            // the nested area is drawn relative to what the first one really selects
+            let ra = crate::model::R::xywh(a[0] as i64, a[1] as i64, a[2].max(0) as i64, a[3].max(0) as i64)
+                .intersect(&crate::model::R::xywh(0, 0, w as i64, h as i64));
+            let (aw, ah) = if ra.is_empty() { (a[2].max(0) as u32, a[3].max(0) as u32) } else { (ra.w() as u32, ra.h() as u32) };
             subs.push(gen_sub_area(src, aw, ah));
         }
     }
